@@ -148,6 +148,8 @@ def passthrough_only(schema, name, under=False):
     feeds another verdict (there, changing `name` legitimately changes the
     errors attributed to the enclosing keyword)."""
     if isinstance(schema, dict):
+        if name == "type" and "disallow" in schema:
+            return False        # draft-3 `disallow` is implemented through the `type` keyword function
         for k, v in schema.items():
             if k == name and under:
                 return False
